@@ -1,10 +1,26 @@
 #!/usr/bin/env python3
 """Writes /tmp/seedwork/prompt-<id>.txt for every property: the brief given to an independent sub-agent that is
-asked to break the property in its own scratch worktree (it gets the property text only, nothing from /verif)."""
-import json, os
-T = open(os.path.join(os.path.dirname(os.path.abspath(__file__)), "seed_prompt_template.txt")).read()
+asked to break the property in its own scratch worktree.  It gets the property text and - to avoid duplicates - a plain
+list of the changes earlier participants already produced for that property (their own words, no information about
+the checks in /verif)."""
+import glob, json, os
+HERE = os.path.dirname(os.path.dirname(os.path.abspath(__file__)))
+T = open(os.path.join(HERE, "tools", "seed_prompt_template.txt")).read()
 os.makedirs("/tmp/seedwork", exist_ok=True)
-for l in open(os.path.join(os.path.dirname(os.path.dirname(os.path.abspath(__file__))), "properties.jsonl")):
+prior = {}
+for m in sorted(glob.glob(os.path.join(HERE, "seeded", "C*-*", "meta.json"))):
+    d = json.load(open(m))
+    prior.setdefault(d["property"], []).append(d["change"])
+# the MAC-coefficient change was produced for C02 and C04 alike
+for a, b in (("C02", "C04"), ("C04", "C02")):
+    for c in prior.get(a, []):
+        if "coefficient" in c and c not in prior.setdefault(b, []):
+            prior[b].append(c)
+for l in open(os.path.join(HERE, "properties.jsonl")):
     p = json.loads(l)
-    open(f"/tmp/seedwork/prompt-{p['id']}.txt", "w").write(T.format(wt=f"/tmp/wt-{p['id']}", out=f"/tmp/seed-{p['id']}", title=p["title"], stmt=p["statement"], quant=p["quantifier"]["text"]))
+    txt = T.format(wt=f"/tmp/wt-{p['id']}", out=f"/tmp/seed-{p['id']}", title=p["title"], stmt=p["statement"], quant=p["quantifier"]["text"])
+    if prior.get(p["id"]):
+        extra = "Changes that other participants ALREADY produced for this property - do not repeat them or close variants of them, pick a different mechanism:\n" + "".join(f"  - {c}\n" for c in prior[p["id"]]) + "\n"
+        txt = txt.replace("Also write a demonstration:", extra + "Also write a demonstration:", 1)
+    open(f"/tmp/seedwork/prompt-{p['id']}.txt", "w").write(txt)
 print("prompts written to /tmp/seedwork")
